@@ -53,9 +53,6 @@ structure ToolSpec where
   reuse : Dict := []
   /-- `unset`: default `unset_mode_<vm>=fi` unless the user chose an unset mode -/
   unsetDefaults : Bool := false
-  /-- `@with_cartesian_graph` steps return 0/1 from the test results; `collect`, `create`, `clean` are plain functions
-  around `_reuse_tool_with_param_dict`, which drops the value of the tool it reuses -/
-  returnsStatus : Bool := true
 deriving Repr
 
 def stateStep (op : String) : Dict := [("vm_action", op), ("skip_image_processing", "yes")]
@@ -78,9 +75,9 @@ def toolSpec : String → Option ToolSpec
   | "get" => some { kind := .perVm, restriction := stateRestr "get", step := stateStep "get" }
   | "set" => some { kind := .perVm, restriction := stateRestr "set", step := stateStep "set" }
   | "unset" => some { kind := .perVm, restriction := stateRestr "unset", step := stateStep "unset", unsetDefaults := true }
-  | "collect" => some { kind := .perVm, restriction := stateRestr "get", step := stateStep "get", reuse := collectDict, returnsStatus := false }
-  | "create" => some { kind := .perVm, restriction := stateRestr "set", step := stateStep "set", reuse := createDict, returnsStatus := false }
-  | "clean" => some { kind := .perVm, restriction := stateRestr "unset", step := stateStep "unset", reuse := cleanDict, returnsStatus := false,
+  | "collect" => some { kind := .perVm, restriction := stateRestr "get", step := stateStep "get", reuse := collectDict }
+  | "create" => some { kind := .perVm, restriction := stateRestr "set", step := stateStep "set", reuse := createDict }
+  | "clean" => some { kind := .perVm, restriction := stateRestr "unset", step := stateStep "unset", reuse := cleanDict,
                       unsetDefaults := true }
   | "boot" => some { kind := .oneNode, restriction := manageRestr "start", step := [] }
   | "download" => some { kind := .oneNode, restriction := manageRestr "download", step := [] }
@@ -392,9 +389,14 @@ inductive Outcome | retNone | ret (n : Int) | raised
 deriving Repr, DecidableEq
 
 /-- what a built-in step hands back to `Manu.run`: an exception passes through; otherwise
-`0 if runner.all_results_ok() else 1` for the `@with_cartesian_graph` steps and `None` for the reusing ones -/
-def stepOutcome (t : ToolSpec) (raised allOk : Bool) : Outcome :=
-  if raised then .raised else if t.returnsStatus then .ret (if allOk then 0 else 1) else .retNone
+`0 if runner.all_results_ok() else 1` — directly for the `@with_cartesian_graph` steps, and passed on by
+`_reuse_tool_with_param_dict` for `collect`, `create`, `clean` (since 5f9a82c) -/
+def stepOutcome (_t : ToolSpec) (raised allOk : Bool) : Outcome :=
+  if raised then .raised else .ret (if allOk then 0 else 1)
+
+/-- (regression, before 5f9a82c) the reusing steps dropped the status of the tool they reuse and returned `None` -/
+def stepOutcomePreFix (t : ToolSpec) (raised allOk : Bool) : Outcome :=
+  if raised then .raised else if t.reuse.isEmpty then .ret (if allOk then 0 else 1) else .retNone
 
 /-- `setup_func(...) not in [None, 0]`, or an exception -/
 def Outcome.fails : Outcome → Bool
@@ -419,19 +421,25 @@ def runChainFrom {σ : Type} (known : String → Bool) (f : σ → String → Na
       let r := runChainFrom known f (f env st i).2 (i + 1) (if (f env st i).1.fails then 1 else rc) rest
       { r with executed := (st, i) :: r.executed, outcomes := (f env st i).1 :: r.outcomes }
 
-/-- `Params.objects(key)` of virttest: the words of the value with *duplicates removed* (first occurrence kept) -/
+/-- `setup_chain = run_params.get("setup", "").split()` followed by the loop: the chain as given, repeated steps
+included (since 3361dd0) -/
+def runChain {σ : Type} (known : String → Bool) (f : σ → String → Nat → Outcome × σ) (env : σ)
+    (chain : List String) : ChainResult σ :=
+  runChainFrom known f env 0 0 chain
+
+/-- (regression, before 3361dd0) `Params.objects(key)` of virttest: the words of the value with *duplicates removed*
+(first occurrence kept); `Manu.run` used to take the chain from it -/
 def objects : List String → List String
   | [] => []
   | x :: xs => x :: (objects xs).filter (· != x)
 
-/-- `setup_chain = run_params.objects("setup")` followed by the loop -/
-def runChain {σ : Type} (known : String → Bool) (f : σ → String → Nat → Outcome × σ) (env : σ)
-    (chain : List String) : ChainResult σ :=
-  runChainFrom known f env 0 0 (objects chain)
+/-- `_reuse_tool_with_param_dict`: `config["param_dict"]` is updated, the tool is called and the old dictionary is
+put back in a `finally` (since 79572ad): whether the tool returns or raises, the chain goes on with the dictionary it
+had -/
+def reuseEnvAfter (_t : ToolSpec) (pd : Dict) (_raised : Bool) : Dict := pd
 
-/-- `_reuse_tool_with_param_dict`: `config["param_dict"]` is updated, the tool is called, the old dictionary is put
-back — but only when the tool returns (no `try/finally`) -/
-def reuseEnvAfter (t : ToolSpec) (pd : Dict) (raised : Bool) : Dict :=
+/-- (regression, before 79572ad) the dictionary was put back only when the tool returned -/
+def reuseEnvAfterPreFix (t : ToolSpec) (pd : Dict) (raised : Bool) : Dict :=
   if raised && !t.reuse.isEmpty then dupdate pd t.reuse else pd
 
 /-- a built-in step as `Manu.run` sees it: the environment is `config["param_dict"]`; `beh i` says whether the `i`-th
@@ -440,6 +448,12 @@ def builtinStep (beh : Nat → Bool × Bool) (pd : Dict) (st : String) (i : Nat)
   match toolSpec st with
   | none => (if (beh i).1 then .raised else .retNone, pd)
   | some t => (stepOutcome t (beh i).1 (beh i).2, reuseEnvAfter t pd (beh i).1)
+
+/-- (regression) the built-in step before 5f9a82c and 79572ad -/
+def builtinStepPreFix (beh : Nat → Bool × Bool) (pd : Dict) (st : String) (i : Nat) : Outcome × Dict :=
+  match toolSpec st with
+  | none => (if (beh i).1 then .raised else .retNone, pd)
+  | some t => (stepOutcomePreFix t (beh i).1 (beh i).2, reuseEnvAfterPreFix t pd (beh i).1)
 
 /-- the `config["param_dict"]` each executed step starts with -/
 def envTrace {σ : Type} (known : String → Bool) (f : σ → String → Nat → Outcome × σ) (env : σ) (i : Nat) :
